@@ -143,6 +143,41 @@ pub fn exec(ctx: &Ctx, st: &mut State, op: &str) -> String {
                 Err(site) => out.push_str(&format!("T panic {}\n", site)),
             }
         }
+        "tupdate2" => {
+            // two vehicles updated in a row with the "updated tours first" overlay, as the schedule
+            // modifications do: O tupdate2 r v1 d1 v2 d2
+            let r: usize = t[1].parse().unwrap();
+            let (tr, detached) = st.regs[&r].clone();
+            let old_tours = st.tours.clone();
+            let (v1, v2) = (parse_veh(t[2]), parse_veh(t[4]));
+            let (d1, d2) = (ctx.n(t[3].parse().unwrap()), ctx.n(t[5].parse().unwrap()));
+            let mk = |v: VehicleIdx, d: NodeIdx| {
+                let old = old_tours.get(&v).unwrap().clone();
+                if nw.node(d).is_start_depot() { old.replace_start_depot(d) } else { old.replace_end_depot(d) }
+            };
+            match (mk(v1, d1), mk(v2, d2)) {
+                (Ok(n1), Ok(n2)) => {
+                    let res = guarded(|| {
+                        let mut updated: ImHashMap<VehicleIdx, &Tour> = ImHashMap::new();
+                        let t1 = tr.update_vehicle(v1, &n1, &updated, &old_tours, &nw);
+                        updated.insert(v1, &n1);
+                        t1.update_vehicle(v2, &n2, &updated, &old_tours, &nw)
+                    });
+                    match res {
+                        Ok(ntr) => {
+                            out.push_str(&format!("T tour {} {}\n", veh_tok(v1), ctx.tour_line(&n1)));
+                            out.push_str(&format!("T tour {} {}\n", veh_tok(v2), ctx.tour_line(&n2)));
+                            st.tours.insert(v1, n1);
+                            st.tours.insert(v2, n2);
+                            dump_reg(&mut out, id, &ntr, st.vt);
+                            st.regs.insert(id, (ntr, detached));
+                        }
+                        Err(site) => out.push_str(&format!("T panic {}\n", site)),
+                    }
+                }
+                _ => out.push_str("T err\n"),
+            }
+        }
         "tsucc" => {
             let r: usize = t[1].parse().unwrap();
             let v = parse_veh(t[2]);
@@ -249,7 +284,16 @@ pub fn generate(ctx: &Ctx, rng: &mut Rng, n_ops: u64) -> String {
                 let v = *rng.pick(&members);
                 let nd = ctx.ndepots() as u64;
                 let d = if rng.chance(50) { 2 * rng.below(nd) + 1 } else { 2 * rng.below(nd) };
-                do_op(&mut st, &mut s, format!("tupdate {} {} {}", r, veh_tok(v), d));
+                if members.len() >= 2 && rng.chance(60) {
+                    // a neighbour in the same cycle if there is one
+                    let cyc: Vec<VehicleIdx> = tr.cycles_iter().find(|c| c.iter().any(|x| x == v)).map(|c| c.iter().collect()).unwrap_or_default();
+                    let others: Vec<VehicleIdx> = if cyc.len() >= 2 && rng.chance(80) { cyc.into_iter().filter(|x| *x != v).collect() } else { members.iter().copied().filter(|x| *x != v).collect() };
+                    let v2 = *rng.pick(&others);
+                    let d2 = if rng.chance(50) { 2 * rng.below(nd) + 1 } else { 2 * rng.below(nd) };
+                    do_op(&mut st, &mut s, format!("tupdate2 {} {} {} {} {}", r, veh_tok(v), d, veh_tok(v2), d2));
+                } else {
+                    do_op(&mut st, &mut s, format!("tupdate {} {} {}", r, veh_tok(v), d));
+                }
                 // a tour changed: older registers are stale, keep only the new one
                 let last = *st.regs.keys().last().unwrap();
                 st.regs.retain(|k, _| *k == last);
@@ -301,6 +345,7 @@ pub fn rerun(ctx: &Ctx, text: &str) -> String {
                 let members: Vec<VehicleIdx> = tr.cycles_iter().flat_map(|c| c.iter()).collect();
                 let ok = match t[0] {
                     "tmove" | "tremove" | "tsucc" | "tupdate" => members.contains(&parse_veh(t[2])) && (t[0] != "tupdate" || detached.is_empty()),
+                    "tupdate2" => members.contains(&parse_veh(t[2])) && members.contains(&parse_veh(t[4])) && t[2] != t[4] && detached.is_empty(),
                     "taddend" | "taddown" => detached.contains(&parse_veh(t[2])),
                     "t3opt" => detached.is_empty(),
                     _ => true,
